@@ -98,8 +98,10 @@ func checkTimeFoldExact(p *Program, r *Result, rule string) {
 			}
 			return res != neg, true
 		}
-		// does the store execute in case e? (walk from the closest decidable dominator; an unguarded store always does)
-		executes := func(st *ssa.Store, e env) bool {
+		// does the store execute in case e? Walk from the closest decidable dominator; an unguarded store always does. A
+		// condition that is not about this field (the other end of the range, an option) is followed on both sides:
+		// all=true asks whether the store executes whatever such conditions say, all=false whether it can.
+		executes := func(st *ssa.Store, e env, all bool) bool {
 			root := st.Block()
 			for d := st.Block().Idom(); d != nil; d = d.Idom() {
 				iff, ok := d.Instrs[len(d.Instrs)-1].(*ssa.If)
@@ -111,43 +113,57 @@ func checkTimeFoldExact(p *Program, r *Result, rule string) {
 				}
 				root = d
 			}
-			b := root
-			for steps := 0; steps < 20; steps++ {
-				if b == st.Block() {
-					return true
+			var walk func(b *ssa.BasicBlock, steps int) bool
+			walk = func(b *ssa.BasicBlock, steps int) bool {
+				for ; steps < 24; steps++ {
+					if b == st.Block() {
+						return true
+					}
+					iff, ok := b.Instrs[len(b.Instrs)-1].(*ssa.If)
+					if !ok {
+						if len(b.Succs) == 1 {
+							b = b.Succs[0]
+							continue
+						}
+						return false
+					}
+					v, ok := evalCond(iff.Cond, e)
+					if !ok {
+						l, r := walk(b.Succs[0], steps+1), walk(b.Succs[1], steps+1)
+						if all {
+							return l && r
+						}
+						return l || r
+					}
+					if v {
+						b = b.Succs[0]
+					} else {
+						b = b.Succs[1]
+					}
 				}
-				iff, ok := b.Instrs[len(b.Instrs)-1].(*ssa.If)
-				if !ok {
-					return false
-				}
-				v, ok := evalCond(iff.Cond, e)
-				if !ok {
-					return false
-				}
-				if v {
-					b = b.Succs[0]
-				} else {
-					b = b.Succs[1]
-				}
+				return false
 			}
-			return false
+			return walk(root, 0)
 		}
 		for _, e := range []env{{-1, true}, {0, true}, {1, true}, {-1, false}, {0, false}, {1, false}} {
 			// the running value changes to t in this case iff a plain store of t executes, or a min/max fold executes in
 			// a case where t is the smaller / larger of the two
-			changed := false
+			changed, mayChange := false, false
 			for _, st := range stores {
-				if !executes(st, e) {
+				effective := true
+				if dir, isFold := foldDir[st]; isFold {
+					effective = (dir < 0 && e.rel < 0) || (dir > 0 && e.rel > 0)
+				} else if e.rel == 0 {
+					effective = false // storing an equal value changes nothing
+				}
+				if !effective {
 					continue
 				}
-				if dir, isFold := foldDir[st]; isFold {
-					if (dir < 0 && e.rel < 0) || (dir > 0 && e.rel > 0) {
-						changed = true
-					}
-				} else if e.rel != 0 {
+				if executes(st, e, true) {
 					changed = true
-				} else {
-					changed = changed || false // storing an equal value changes nothing
+				}
+				if executes(st, e, false) {
+					mayChange = true
 				}
 			}
 			var must, mustNot bool
@@ -163,7 +179,7 @@ func checkTimeFoldExact(p *Program, r *Result, rule string) {
 			if must && !changed {
 				bad = "for " + who + " with a log time " + relName + " the running value the statistics are not updated"
 			}
-			if mustNot && changed {
+			if mustNot && mayChange {
 				bad = "for " + who + " with a log time " + relName + " the running value the statistics are overwritten"
 			}
 		}
